@@ -1,29 +1,83 @@
 """C14 — missing or out-of-range data raises a logic error, never undefined behaviour (DESIGN.md §4 C14; partial by nature)."""
-import itertools, random, re
+import hashlib, itertools, os, random, re, shutil, time
 from concurrent.futures import ThreadPoolExecutor
 from . import common as C
 
 PID = 'C14'
 MANIFEST = dict(
-    text='Theorems C14_* prove, on the hand-written model of Sequence<T> and its nine implementations, that for every member list get(i) '
-         'is refused (logic error) exactly when i >= size() or the slot was never filled (pre-sized ref_sequence / Warehouse, F7), that '
-         'iteration from begin() to end() visits exactly size() elements, the i-th being get(i), and backwards the reverse; and on the model '
-         'of accessor outcomes that, for every history of link assignments on a partially built node, reading a never-set util::ref / '
-         'Optional link is refused, reading a set link returns the node last assigned, Optional-returning accessors never raise, and '
-         'assigning one link never changes an accessor that reads another. WHICH accessor needs which link is a hand-written table over '
-         '~220 node kinds; it is tied to the code by an exhaustive sweep under ASan+UBSan (-fno-sanitize-recover): every kind the factories '
-         'produce x every state of its optional links x every accessor of its interface (universal observer), each state in a forked child, '
-         'plus every Sequence implementation over all small slot patterns with out-of-range / SIZE_MAX indices and both iteration '
-         'directions. PARTIAL: absence of undefined behaviour is not expressible in the model; the theorems fix which outcome is required, '
-         'the sanitizers observe that nothing else happened on the swept states.',
+    text='Theorems C14_* prove, on the hand-written model of Sequence<T> and its nine implementations (ref_sequence incl. pre-sized / '
+         'decl_sequence / Warehouse, obj_sequence, obj_list, empty_sequence, singleton_obj/_ref, typed_sequence, homogeneous_scope), for '
+         'EVERY slot list: get(i) is refused (logic error) exactly when i >= size() or the slot was never filled (F7; for a typed sequence '
+         'also when the member\'s type() raises), otherwise returns the i-th element; iteration from begin() to end() visits exactly '
+         'size() elements, the i-th being get(i), backwards the reverse; empty() iff size() = 0; *end() and *--begin() are refused. On the '
+         'model of accessor outcomes, for every history of link assignments on a partially built node: reading a never-set util::ref / '
+         'Optional link is refused, reading a set link returns the node LAST assigned, Optional-returning accessors never raise, an '
+         'accessor depends only on the link it reads. WHICH accessor needs which link is a hand-written table over 224 node kinds (hygiene '
+         'by kernel evaluation, lifted to every kind x row x history), tied to the code by an exhaustive sweep under ASan+UBSan '
+         '(-fno-sanitize-recover): every kind the factories produce x every state of its optional links x every accessor (universal '
+         'observer), each in a forked child, plus random assignment histories and every Sequence implementation over all small slot '
+         'patterns with out-of-range / SIZE_MAX indices, both directions. PARTIAL: absence of undefined behaviour is not expressible in '
+         'the model; the theorems fix which outcome is required, the sanitizers observe that nothing else happened on the swept states.',
     note='Lean kernel; axioms propext/Classical.choice/Quot.sound; std::vector/deque/forward_list/variant represented by their '
          'specification; outcome table hand-written from include/ipr/{interface,impl}; operands of swept nodes are complete nodes except '
          'for the delegating accessors; ASan/UBSan, g++ 12; harness/observe.hxx decides which accessors exist.',
-    technique='Lean 4 theorems (sequence laws by induction, outcome laws over assignment histories, table hygiene by kernel evaluation) '
-              '+ exhaustive differential sweep under sanitizers',
+    technique='Lean 4 theorems (sequence laws by induction over any slot list, outcome laws over all assignment histories, table hygiene '
+              'by kernel evaluation lifted by general lemmas) + exhaustive differential sweep under sanitizers',
     ref='§4 C14')
 
 WORKERS = 4
+
+# The probe is one program in ten translation units so that a cold build takes ~20 s of wall time instead of ~85 s: code
+# generation for the universal observer under ASan+UBSan dominates and parallelises.  Every unit gets the SAME flags (sanitizers
+# included: inline library code is instrumented wherever the linker takes it from).  (source, extra flags, object name)
+PROBE_UNITS = [('c14probe.cxx', [], 'main'), ('c14kinds_a.cxx', [], 'kinds_a'), ('c14kinds_b.cxx', [], 'kinds_b'),
+               ('c14kinds_c.cxx', [], 'kinds_c'), ('c14seq.cxx', [], 'seq')] + \
+              [('c14obs.cxx', ['-DC14_OBS_PART=%d' % i], 'obs%d' % i) for i in range(5)]
+PROBE_DEPS = ['c14probe.inc']
+PROBE_FLAGS = ['-O0']
+
+
+def build_probe():
+    """c14probe against the current tree (ASan+UBSan), units compiled in parallel; cached like common.build_harness."""
+    flavor = 'asan'
+    rh = C.repo_hash()
+    hh = hashlib.sha256()
+    deps = [os.path.join(C.HARNESS, f) for f in sorted(set(u[0] for u in PROBE_UNITS)) + PROBE_DEPS]
+    for root, _, files in sorted(os.walk(C.HARNESS)):
+        deps += [os.path.join(root, f) for f in sorted(files) if f.endswith(('.hxx', '.h', '.hpp'))]
+    for f in deps:
+        with open(f, 'rb') as fh:
+            hh.update(os.path.basename(f).encode() + fh.read())
+    hh.update(repr((flavor, PROBE_UNITS, PROBE_FLAGS)).encode())
+    d = os.path.join(C.CACHE, 'lib-' + rh, flavor)
+    exe = os.path.join(d, 'c14probe-%s' % hh.hexdigest()[:12])
+    lib = C.build_lib(flavor)
+    with C.lock('har-%s-%s-c14probe' % (rh, flavor)):
+        if os.path.exists(exe):
+            return exe
+        objdir = exe + '.objs'
+        os.makedirs(objdir, exist_ok=True)
+        t0 = time.time()
+        base = ['g++'] + C.CXXFLAGS + C.FLAVORS[flavor] + ['-fno-access-control', '-I' + C.HARNESS] + PROBE_FLAGS
+
+        def cc(unit):
+            src, extra, name = unit
+            obj = os.path.join(objdir, name + '.o')
+            r = C.run_cmd(base + extra + ['-c', os.path.join(C.HARNESS, src), '-o', obj])
+            if r.returncode != 0:
+                raise C.BuildError('compiling harness unit %s %s failed:\n%s' % (src, ' '.join(extra), r.stdout[-6000:]))
+            return obj
+        try:
+            with ThreadPoolExecutor(min(len(PROBE_UNITS), max(2, C.NCPU - 2))) as ex:
+                objs = list(ex.map(cc, PROBE_UNITS))
+            r = C.run_cmd(['g++'] + C.FLAVORS[flavor] + PROBE_FLAGS + objs + [lib, '-o', exe + '.tmp', '-pthread'])
+            if r.returncode != 0:
+                raise C.BuildError('linking c14probe failed:\n%s' % r.stdout[-6000:])
+            os.replace(exe + '.tmp', exe)
+        finally:
+            shutil.rmtree(objdir, ignore_errors=True)
+        C.log('[build] harness c14probe (%s, %d units in parallel) in %.1fs' % (flavor, len(PROBE_UNITS), time.time() - t0))
+    return exe
 
 
 # ------------------------------------------------------------------------------------------------------------ running both sides
@@ -349,7 +403,7 @@ def run(tier):
     res = C.Result(PID, tier)
     rng = random.Random(C.seed() * 104729 + 14)
     ok, info, detail = C.prove(res, PID)
-    probe = C.build_harness('c14probe', 'asan', extra=['-O0'])
+    probe = build_probe()
     model_kinds = read_model_kinds()
     kinds, crashed, err = read_kinds(probe)
     for name, ans in crashed:
@@ -408,7 +462,7 @@ def replay(path):
     ops = [l.strip() for l in open(path) if l.strip() and not l.startswith(('#', 'correspondence:', 'theorem'))]
     ops = [o for o in ops if o.split()[0] in ('state', 'hist', 'seq', 'optional')]
     C.lean_build(['model_c14'])
-    probe = C.build_harness('c14probe', 'asan', extra=['-O0'])
+    probe = build_probe()
     if not ops:
         print('replay: the file names no executable input (a theorem or a correspondence): re-run the check')
         return 1
